@@ -70,6 +70,8 @@ partial def parseSeq (toks : List String) : Option (List Instr × List String ×
     | "global.set" => do cont (.globalSet (← imm.toNat?)) rest
     | "memory.size" => cont .memSize rest
     | "memory.grow" => cont .memGrow rest
+    | "memory.copy" => cont .memCopy rest
+    | "memory.fill" => cont .memFill rest
     | "drop" => cont .drop rest
     | "select" => cont .select rest
     | "unreachable" => cont .unreachable rest
